@@ -25,7 +25,13 @@ MANIFEST = dict(
          "and the same histories are sound on the current code (C03_phantom_repaired, C03_nested_moveout_repaired, "
          "C03_f10e_repaired); for the current code: a forgotten descriptor produces no event, a departed directory's watches "
          "are forgotten, no raw event below its former path (C03_forgotten_descriptor_no_event, C03_moveout_forgets, "
-         "C03_no_phantom_after_moveout); history-level soundness of the current code stays a stated Definition. "
+         "C03_no_phantom_after_moveout); SEQUENTIAL histories are sound: along every history of covered "
+         "operations, directory move-ins and move-outs (the class ops_x1 of C01/C02) run block-wise from Inotify.__init__ "
+         "(one operation, everything read, grouped, emitted) every block delivers exactly the operation's contract "
+         "(C03_block_contract) and every event of a contract is justified by that operation (C03_contract_justified), hence "
+         "no unjustified event is delivered (C03_sound_sequential, C03_sound_sequential_from_start; instance: the former "
+         "phantom history); history-level soundness over ALL interleavings (bursts, partial reads) stays a stated "
+         "Definition (C03_sound_full_current). "
          "Pipeline model in lock-step against the real observer on the real kernel (see C01); completeness: in "
          "one-at-a-time histories the events delivered for each operation must equal the per-operation contract written "
          "from the property text; soundness: in arbitrary (also unpaced) histories every delivered event must be explained "
